@@ -107,6 +107,12 @@ def run(rep):
     cfgs = CONFIGS_Q if rep.tier == "quick" else CONFIGS_T
     jobs = [c + (rep.tier, rep.seed) for c in cfgs]
     results = common.pmap(_one_config, jobs, procs=min(4, len(jobs)), chunksize=1)
+    # every progress query (num_results, missing_results, is_ready_to_reap) polled while two growers write
+    try:
+        os.dup2(os.open(os.devnull, os.O_WRONLY), 2)
+    except Exception:
+        pass
+    cropfs.full_poller_config(rep, "C11_fullpoll", 2, 2, [("g1", 1), ("g2", 2)], 120 if rep.tier == "quick" else 2500)
     for out in results:
         for name, summ, cov in out["tlc"]:
             class R(object):
@@ -125,7 +131,21 @@ def run(rep):
             rep.add_violation(case, prob, key=key)
 
 
+def replay_fullpoll(rep, case):
+    setup = cropfs.Setup(2, 2)
+    try:
+        writers = [("g1", 1, 9200), ("g2", 2, 9201)]
+        obs = cropfs.execute(setup, writers, [tuple(s) for s in case["steps"]], npolls=1, with_reaper=False, fullpoll=True)
+        prob, tag = cropfs.judge(setup, obs, False)
+        if prob:
+            rep.add_violation(case, prob, key=dict(tag=tag, config=case.get("config")))
+    finally:
+        setup.close()
+
+
 def replay(rep, case):
+    if str(case.get("kind", "")).startswith("fullpoll_"):
+        return replay_fullpoll(rep, case)
     cfg = [c for c in CONFIGS_T if c[0] == case["config"]][0]
     label, n, nb, wr, npolls = cfg
     setup = cropfs.Setup(n, nb)
